@@ -24,9 +24,9 @@ META = dict(
     "attachment and regularity are uninterpreted functions; on every path (every accept/reject pattern, every visiting order) it is proved that "
     "each proposal perturbs exactly the targeted block by std*z with the draw consumed for that block, that the decision taken is "
     "u < exp(-(dR*beta + dA)) with the uniform consumed for that decision (one per decision), that the acceptance history receives the "
-    "decisions, that the final value is the accepted/rejected mixture, and that row i of the individual sampler mentions only row i's symbols. In IEEE float32 (where likelihoods can overflow to inf / NaN) the real individual sampler is run on two executions that agree on individual 0 and differ freely on the others, and individual 0's new value, recorded decision and refreshed attachment are proved bit-identical (2-safety non-interference).",
+    "decisions, that the final value is the accepted/rejected mixture, and that row i of the individual sampler mentions only row i's symbols. In IEEE float32 (where likelihoods can overflow to inf / NaN) the real individual sampler is run on two executions that agree on individual 0 and differ freely on the others, and individual 0's new value, recorded decision and refreshed attachment are proved bit-identical (2-safety non-interference). Mixture branch of the individual sampler: on a cluster graph (uninterpreted per-cluster regularities) the ratio handed to the real _group_metropolis_step equals exp(-(dR*beta + dA)) with R the softmax-responsibility-weighted regularity evaluated on the previous, respectively proposed, state.",
     bounds="population shapes (2,), (3,), (2,1), (2,2) [thorough: (3,2)]; individuals <= 3 with row shape (1,), (2,); one call of sample(); all visiting orders; IEEE float32 2-safety task: 2 (3) individuals, row shape (1,) ((2,)), concrete squared-error attachment / regularity, finite state and draws, likelihoods free to overflow",
-    outside="mixture branches (softmax-weighted regularity); masked samplers (NotImplementedError in this tree, asserted); detailed balance as a probabilistic statement",
+    outside="masked samplers (NotImplementedError in this tree, asserted); detailed balance as a probabilistic statement",
     assumptions=["floats as reals; exp abstracted (positive, monotone)", "torch.randn / torch.rand replaced by fresh symbols, random.shuffle by an enumerated permutation"],
 )
 
@@ -469,6 +469,133 @@ sys.exit(0 if all(same(x, y) for x, y in zip(a, b)) else 1)
     return guarded(prop, task, body)
 
 
+
+# ------------------------------------------------------------------------------------------------------------------
+# mixture models: the regularity of an individual is the responsibility-weighted sum over clusters of its per-cluster regularities,
+# the responsibilities being those of the state the term is evaluated on (previous state for the previous term, proposed state for the new one)
+# ------------------------------------------------------------------------------------------------------------------
+MIX_REPLAY = """
+from leaspy.utils.weighted_tensor import WeightedTensor
+C = {n_clusters}
+def R_mix(v): return torch.stack([(v ** 2).sum(dim=1) * (1.3 + c) + v[:, 0] * (c - 0.5) * 3 for c in range(C)], dim=1)
+def mix_dag():
+    return VariablesDAG.from_dict({{"v": DataVariable(), "o": DataVariable(),
+        "nll_attach_ind": LinkedVariable(NamedInputFunction(A_ind, ("v", "o"))), "nll_regul_v_ind": LinkedVariable(NamedInputFunction(R_mix, ("v",))),
+        "nll_regul_ind_sum_ind": LinkedVariable(NamedInputFunction(lambda nll_regul_v_ind: WeightedTensor(nll_regul_v_ind), ("nll_regul_v_ind",))),
+        "nll_attach": LinkedVariable(NamedInputFunction(lambda nll_attach_ind: nll_attach_ind.sum(), ("nll_attach_ind",)))}})
+def target_R(v):
+    r = R_mix(v); p = torch.softmax(torch.clamp(-r, -100.), dim=1)
+    return (p * r).sum(dim=1)
+N, SHAPE = {n_ind}, {shape!r}
+bad = None
+for seed in range(25):
+    rng = np.random.default_rng(seed)
+    v0 = torch.tensor(rng.standard_normal((N,) + SHAPE), dtype=torch.float64); o = torch.tensor(rng.standard_normal((N, 1)), dtype=torch.float64)
+    tinv = float(rng.uniform(0.05, 1.0))
+    S = State(mix_dag(), auto_fork_type=StateForkType.REF)
+    with S.auto_fork(None): S["v"] = v0.clone(); S["o"] = o
+    smp = sampler_factory("gibbs", IndividualLatentVariable, name="v", shape=SHAPE, n_patients=N, scale=1.0)
+    smp.std = torch.tensor(rng.uniform(0.2, 1.5, (N,)), dtype=torch.float64); std = smp.std.clone()
+    seen = []
+    real_step = smp._group_metropolis_step
+    smp._group_metropolis_step = lambda alpha: (seen.append(alpha.clone()), real_step(alpha))[1]
+    d = Draws(rng); saved = (torch.randn, torch.rand)
+    torch.randn, torch.rand = d.randn, d.rand
+    try: smp.sample(S, temperature_inv=tinv)
+    finally: torch.randn, torch.rand = saved
+    prop = v0 + std.reshape((N,) + (1,) * len(SHAPE)) * d.n[0]
+    D = (target_R(prop) - target_R(v0)) * tinv + (A_ind(prop, o) - A_ind(v0, o))
+    if len(seen) != 1 or not torch.allclose(seen[0], torch.exp(-D), rtol=1e-9, atol=1e-12): bad = f"seed {{seed}}: acceptance ratio {{seen}} is not exp(-D) = {{torch.exp(-D)}} for the responsibility-weighted target"; break
+print(bad); sys.exit(1 if bad else 0)
+"""
+
+
+def ind_mixture_task(n_ind, shape, n_clusters=2, prop=PROP):
+    task = f"ind-mixture[gibbs,n={n_ind},shape={tuple(shape)},clusters={n_clusters}]"
+
+    def body():
+        from leaspy.utils.weighted_tensor import WeightedTensor as WT
+
+        rec = Recorder(prop, task, SAMPLER_FUNCS)
+        rec.stubs += ["torch.randn -> fresh symbols", "torch.rand -> fresh symbols in [0,1)", "per-cluster regularities and attachment are uninterpreted functions of the individual's own row"]
+        script = REPLAY_PRELUDE + MIX_REPLAY.format(n_clusters=n_clusters, n_ind=n_ind, shape=tuple(shape))
+        st.new_context("R")
+
+        def rows(x):
+            a = st.to_terms(x.value if isinstance(x, WT) else x)
+            return [list(a[i].reshape(-1)) for i in range(a.shape[0])]
+
+        def Rc(v):
+            rv = rows(v)
+            return st.mk(np.array([[T.apply_fn(f"Ri{c}", tuple(rv[i])) for c in range(n_clusters)] for i in range(n_ind)], dtype=object), torch.float32)
+
+        def Oc(o):
+            ro = rows(o)
+            return st.mk(np.array([[T.apply_fn(f"Roi{c}", tuple(ro[i])) for c in range(n_clusters)] for i in range(n_ind)], dtype=object), torch.float32)
+
+        def Aind(v, o):
+            rv, ro = rows(v), rows(o)
+            return st.mk(np.array([T.apply_fn("Ai", tuple(rv[i] + ro[i])) for i in range(n_ind)], dtype=object), torch.float32)
+
+        dag = VariablesDAG.from_dict({
+            "v": DataVariable(), "o": DataVariable(),
+            "nll_attach_ind": LinkedVariable(NamedInputFunction(Aind, ("v", "o"))),
+            "nll_regul_v_ind": LinkedVariable(NamedInputFunction(Rc, ("v",))),
+            "nll_regul_o_ind": LinkedVariable(NamedInputFunction(Oc, ("o",))),
+            "nll_regul_ind_sum_ind": LinkedVariable(NamedInputFunction(lambda nll_regul_v_ind, nll_regul_o_ind: WT(nll_regul_v_ind + nll_regul_o_ind), ("nll_regul_v_ind", "nll_regul_o_ind"))),
+            "nll_attach": LinkedVariable(NamedInputFunction(lambda nll_attach_ind: nll_attach_ind.sum(), ("nll_attach_ind",))),
+        })
+        S = State(dag, auto_fork_type=StateForkType.REF)
+        v0 = st.sym("v", (n_ind,) + tuple(shape))
+        o = st.sym("o", (n_ind, 1))
+        with S.auto_fork(None):
+            S["v"] = v0
+            S["o"] = o
+        tinv = st.sym("tinv", ())
+        T.assume(z3.And(tinv.sym[()] > 0, tinv.sym[()] <= 1))
+        smp = make_sampler("ind-gibbs", tuple(shape), n_ind=n_ind)
+        std0 = smp.std.sym.copy()
+        seen = []
+        real_step = smp._group_metropolis_step
+        smp._group_metropolis_step = lambda alpha: (seen.append(alpha), real_step(alpha))[1]  # observes the ratio handed to the real step
+        d = Draws()
+        with d:
+            smp.sample(S, temperature_inv=tinv)
+        rec.obligations += 1
+        if len(d.normals) == 1 and len(d.uniforms) == 1 and len(seen) == 1 and tuple(seen[0].shape) == (n_ind,) and not T.ctx().decisions:
+            rec.discharged += 1
+        else:
+            rec.violation_from_script("draw-counts", f"{prop}:draw-counts:ind-mixture", script, "mixture branch: wrong number / shape of draws or ratios, or a Python-level branch on data")
+            return rec.result()
+        z, u = d.normals[0].sym, d.uniforms[0].sym
+        prop_t = st.mk(np.array([[a + std0[i] * zz for a, zz in zip(v0.sym[i].reshape(-1), z[i].reshape(-1))] for i in range(n_ind)], dtype=object).reshape(v0.sym.shape), torch.float32)
+
+        def target_R(v):  # the documented target, written independently with the engine's own operations
+            r = Rc(v)
+            s_ = r + Oc(o)
+            p = torch.softmax(torch.clamp(-s_, -100.0), dim=1)
+            return (p * r).sum(dim=1)
+
+        D = (target_R(prop_t) - target_R(v0)) * tinv + (Aind(prop_t, o) - Aind(v0, o))
+        alpha_exp = st.to_terms(torch.exp(-1 * D))
+        alpha_got = st.to_terms(seen[0])
+        final = st.to_terms(S["v"])
+        T.ctx().congruence = True
+        for i in range(n_ind):
+            rec.prove(f"alpha[{i}]", alpha_got[i] == alpha_exp[i], replay=lambda m_: script, key=f"{prop}:alpha:ind-mixture", timeout_ms=60000,
+                      what="mixture branch: the acceptance ratio is not exp(-(dR*beta + dA)) with R the responsibility-weighted regularity of the state it is evaluated on")
+            acc = u[i] < alpha_exp[i]
+            for k, (a, b) in enumerate(zip(st.to_terms(prop_t)[i].reshape(-1), v0.sym[i].reshape(-1))):
+                rec.prove(f"final[{i}][{k}]", final[i].reshape(-1)[k] == z3.If(acc, a, b), replay=lambda m_: script, key=f"{prop}:final:ind-mixture", timeout_ms=60000,
+                          what="mixture branch: individual row is not `proposal if u_i < exp(-D_i) else previous value`")
+        rec.twin("ctx")
+        rec.sample({"sampler": "individual gibbs, mixture branch", "n_ind": n_ind, "row_shape": list(shape), "clusters": n_clusters})
+        rec.end_path()
+        return rec.result()
+
+    return guarded(prop, task, body)
+
+
 def structure_task(tier="quick", prop=PROP):
     def body():
         rec = Recorder(prop, "structure-real-graphs", [])
@@ -498,7 +625,10 @@ def tasks(tier, seed=0):
     ts.append(("ind_task", dict(n_ind=2, shape=(1,))))
     ts.append(("ind_task", dict(n_ind=2, shape=(2,))))
     ts.append(("ind_noninterference_task", dict(n_ind=2, shape=(1,))))
+    ts.append(("ind_mixture_task", dict(n_ind=2, shape=(1,), n_clusters=2)))
     if tier == "thorough":
+        ts.append(("ind_mixture_task", dict(n_ind=2, shape=(2,), n_clusters=2)))
+        ts.append(("ind_mixture_task", dict(n_ind=2, shape=(1,), n_clusters=3)))
         ts.append(("ind_noninterference_task", dict(n_ind=2, shape=(2,))))
         ts.append(("ind_noninterference_task", dict(n_ind=3, shape=(1,))))
         ts.append(("ind_task", dict(n_ind=3, shape=(1,))))
